@@ -123,11 +123,24 @@ func oracleConfig(r *rand.Rand) (sim.Config, map[uint64]*oFeeder, int) {
 	cfg.OracleMaxNonce = int32(maxNonce)
 	cfg.Assets = cfg.Assets[:2]
 	cfg.Assets = append(cfg.Assets, sim.AssetCfg{Address: "0xc02aaa39b223fe8d0a0e5c4f27ead9083c756cc2", LzChainID: 101, Decimals: 18, HasOracle: true})
+	// a third of the histories have 4-5 feeders, pairs of which share start block and interval (several rounds then
+	// open and seal in the same block)
+	extra := 0
+	if r.Intn(3) == 0 {
+		extra = 1 + r.Intn(2)
+	}
+	for k := 0; k < extra; k++ {
+		cfg.Assets = append(cfg.Assets, sim.AssetCfg{Address: fmt.Sprintf("0x%040x", 0x5500000+k), LzChainID: 101, Decimals: 18, HasOracle: true})
+	}
+	n := len(cfg.Assets)
 	feeders := map[uint64]*oFeeder{}
 	// half of the histories list the feeders in another order than the tokens (feeder id != token id)
-	order := []int{0, 1, 2}
+	order := make([]int, n)
+	for k := range order {
+		order[k] = k
+	}
 	if r.Intn(2) == 0 {
-		order = r.Perm(3)
+		order = r.Perm(n)
 	}
 	cfg.OracleFeederOrder = order
 	feederOf := map[int]uint64{}
@@ -136,9 +149,13 @@ func oracleConfig(r *rand.Rand) (sim.Config, map[uint64]*oFeeder, int) {
 	}
 	for i := range cfg.Assets {
 		cfg.Assets[i].Price = "" // no genesis price: round ids start at StartRoundID = 1
-		cfg.Assets[i].PriceDec = []int32{0, 2, 8}[i]
+		cfg.Assets[i].PriceDec = []int32{0, 2, 8, 6, 4}[i%5]
 		iv := uint64(2*maxNonce + r.Intn(6))
 		st := uint64(1 + r.Intn(4))
+		if i >= 3 || (extra > 0 && i == 1) {
+			// same schedule as the previous feeder
+			iv, st = cfg.Assets[i-1].Interval, cfg.Assets[i-1].FeederStart
+		}
 		cfg.Assets[i].FeederStart = st
 		cfg.Assets[i].Interval = iv
 		end := uint64(0)
